@@ -44,19 +44,23 @@ class Runner:
         self.batches = 0
         self.programs_run = 0
         self.nctor = 0
+        self.extra_env = {}
+        self.pythonpath_prefix = []
 
     def close(self):
         shutil.rmtree(self.tmp, ignore_errors=True)
 
     def env(self):
         env = dict(os.environ)
-        env["PYTHONPATH"] = os.path.join(self.repo, "src")
+        env["PYTHONPATH"] = os.pathsep.join(
+            list(self.pythonpath_prefix) + [os.path.join(self.repo, "src")])
         env["PYTHONHASHSEED"] = "0"
         env["PYTHONDONTWRITEBYTECODE"] = "1"
         if self.native:
             env.pop("DECIMALFP_FORCE_PYTHON_IMPL", None)
         else:
             env["DECIMALFP_FORCE_PYTHON_IMPL"] = "1"
+        env.update(self.extra_env)
         return env
 
     def run(self, programs, preload=("quantity", "quantity.predefined",
